@@ -82,6 +82,8 @@ type verifSnap struct {
 	poolSize  int
 	nAddrs    int
 	addrTagGb int
+	pkLen     [2]int
+	pkList    [2][vR + vF]*subConnRef
 }
 
 // chanOf is the channel a key is bound on: the slot that owns the connection affinityMap names
@@ -140,7 +142,28 @@ func (w *verifWorld) snap() *verifSnap {
 	s.poolSize = len(gb.scRefs)
 	s.nAddrs = len(gb.addrs)
 	s.addrTagGb = verifAddrTag(gb.addrs)
+	for pi, p := range []*gcpPicker{w.pk, w.other} {
+		s.pkLen[pi] = len(p.scRefs)
+		for q := 0; q < vR+vF; q++ {
+			if q < len(p.scRefs) {
+				s.pkList[pi][q] = p.scRefs[q]
+			}
+		}
+	}
 	return s
+}
+
+// pickersUnchanged: a picker is an immutable snapshot - calls may still be in flight on a superseded
+// one.  No operation changes the channel list of a picker object that already exists.
+func verifPickersUnchanged(a, b *verifSnap) {
+	same := true
+	for pi := 0; pi < 2; pi++ {
+		same = verifAnd(same, a.pkLen[pi] == b.pkLen[pi])
+		for q := 0; q < vR+vF; q++ {
+			same = verifAnd(same, a.pkList[pi][q] == b.pkList[pi][q])
+		}
+	}
+	verifAssert(same, "C02,C04: the channel list of an existing picker object changed (pickers are immutable snapshots; calls still use superseded ones)")
 }
 
 // sameRouting asserts that nothing that decides where calls go has changed between two snapshots.
@@ -204,6 +227,7 @@ func VerifH_usc() {
 	gb.UpdateSubConnState(sc, balancer.SubConnState{ConnectivityState: s})
 	verifReach("after")
 	post := w.snap()
+	verifPickersUnchanged(pre, post)
 	verifAssert(verifLocksFree(), "C06: UpdateSubConnState left a lock held")
 	w.assertInv()
 
@@ -284,6 +308,7 @@ func VerifH_uccs() {
 	verifAssert(gb.cfg == cfg0 && gb.cfg.ChannelPool == cp0 && cp0.MinSize == min0 && cp0.MaxSize == max0 && cp0.MaxConcurrentStreamsLowWatermark == wm0 && cp0.FallbackToReady == fb0 && len(gb.methodCfg) == nMethods0, "C17: configuration changed by a later resolver update")
 	verifReach("after")
 	post := w.snap()
+	verifPickersUnchanged(pre, post)
 	verifAssert(err == nil, "C20: resolver update with a fixed configuration returned an error")
 	verifAssert(verifLocksFree(), "C06: UpdateClientConnState left a lock held")
 	w.assertInv()
@@ -318,6 +343,7 @@ func VerifH_reserr() {
 	w.gb.ResolverError(verifErr{})
 	verifReach("after")
 	post := w.snap()
+	verifPickersUnchanged(pre, post)
 	verifAssert(verifLocksFree(), "C06: ResolverError left a lock held")
 	verifSameRouting(pre, post, "C20: a resolver error changed the pool or the routing")
 	verifAssert(post.nAddrs == pre.nAddrs && post.addrTagGb == pre.addrTagGb, "C20: a resolver error changed the address list")
